@@ -2,6 +2,7 @@ package pcore
 
 import (
 	"context"
+	"errors"
 	"fmt"
 	"net"
 	"reflect"
@@ -428,6 +429,18 @@ type C02Cfg struct {
 	Skip   []int `dials:"-"`
 }
 
+var errC02Rejected = errors.New("C02Cfg: the stack does not verify")
+
+// Verify rejects about a quarter of the stacks (a pure function of exported
+// leaves), so that histories contain rejected configs: those are handed to
+// OnWatchedError and are configs "obtained from a callback" too.
+func (c *C02Cfg) Verify() error {
+	if len(c.Vals)%4 == 3 || (c.Ptr != nil && *c.Ptr%5 == 0) {
+		return errC02Rejected
+	}
+	return nil
+}
+
 // C02DialsCase: Data.Layers[i] is reported by source Src[i]; the first
 // report of each source is its initial Value.
 type C02DialsCase struct {
@@ -495,14 +508,42 @@ func runC02Dials(c C02DialsCase) vrt.Verdict {
 		ws[i] = &fake.Watcher{V: in.layers[i]}
 		srcs[i] = ws[i]
 	}
-	d, err := dials.Config(ctx, in.defaults.Interface().(*C02Cfg), srcs...)
-	if err != nil {
-		return vrt.Violationf("Config failed: %v", err)
+	// configs handed to OnWatchedError (rejected stacks) with what they must hold
+	type rejectedCfg struct {
+		cfg *C02Cfg
+		err error
 	}
+	rejCh := make(chan rejectedCfg, 64)
+	params := dials.Params[C02Cfg]{OnWatchedError: func(_ context.Context, err error, _, n *C02Cfg) {
+		select {
+		case rejCh <- rejectedCfg{n, err}:
+		default:
+		}
+	}}
 	// model: slot per source
 	slot := make([]int, c.Sources)
 	for i := range slot {
 		slot[i] = i
+	}
+	initialInvalid := false
+	{
+		md := c.Data
+		md.Layers = append([]shape.Layer{}, c.Data.Layers[:c.Sources]...)
+		w0 := b.Expected(md)
+		if c.ShareInMaps {
+			shareInMaps(w0)
+		}
+		initialInvalid = w0.Interface().(*C02Cfg).Verify() != nil
+	}
+	d, err := params.Config(ctx, in.defaults.Interface().(*C02Cfg), srcs...)
+	if initialInvalid {
+		if err == nil || !errors.Is(err, errC02Rejected) {
+			return vrt.Violationf("Config over an initial stack that does not verify returned %v", err)
+		}
+		return vrt.OK(false, "initial-stack-rejected")
+	}
+	if err != nil {
+		return vrt.Violationf("Config failed: %v", err)
 	}
 	expected := func() reflect.Value {
 		md := c.Data
@@ -521,6 +562,7 @@ func runC02Dials(c C02DialsCase) vrt.Verdict {
 		want reflect.Value
 	}
 	var versions []version
+	var rejects []version // configs handed to OnWatchedError: never installed, never touched again
 	scribbled := -1
 	defaultsScribbled, defaultsScribbledAtStep := false, 0
 	observe := func(step int) string {
@@ -553,10 +595,35 @@ func runC02Dials(c C02DialsCase) vrt.Verdict {
 		if s < 0 || s >= c.Sources {
 			return vrt.Discardf("malformed case")
 		}
-		if err := ws[s].Args.BlockingReportNewValue(ctx, in.layers[i]); err != nil {
-			return vrt.Violationf("blocking report %d failed: %v", i, err)
+		rerr := ws[s].Args.BlockingReportNewValue(ctx, in.layers[i])
+		prevSlot := slot[s]
+		slot[s] = i // a rejected value stays in its source's slot
+		if wantV := expected(); wantV.Interface().(*C02Cfg).Verify() != nil {
+			if rerr == nil || !errors.Is(rerr, errC02Rejected) {
+				return vrt.Violationf("blocking report %d of a stack that does not verify returned %v", i, rerr)
+			}
+			select {
+			case rj := <-rejCh:
+				if rj.cfg == nil {
+					return vrt.Violationf("OnWatchedError for a rejected stack got a nil config")
+				}
+				if df := shape.Diff(wantV.Elem(), reflect.ValueOf(rj.cfg).Elem()); df != "" {
+					return vrt.Violationf("the rejected config handed to OnWatchedError differs from the model at %s", df)
+				}
+				rejects = append(rejects, version{rj.cfg, wantV})
+			case <-time.After(30 * time.Second):
+				return vrt.Discardf("OnWatchedError was not called within 30 s of a rejected report (C04's business; inconclusive here)")
+			}
+			// the view stays at the last version that verified
+			if v := d.View(); len(versions) > 0 && v != versions[len(versions)-1].cfg {
+				return vrt.Violationf("a rejected report changed the view")
+			}
+			_ = prevSlot
+			continue
 		}
-		slot[s] = i
+		if rerr != nil {
+			return vrt.Violationf("blocking report %d failed: %v", i, rerr)
+		}
 		if msg := observe(i - c.Sources + 1); msg != "" {
 			return vrt.Violationf("%s", msg)
 		}
@@ -568,6 +635,16 @@ func runC02Dials(c C02DialsCase) vrt.Verdict {
 		}
 		if df := shape.Diff(v.want.Elem(), reflect.ValueOf(v.cfg).Elem()); df != "" {
 			return vrt.Violationf("version %d changed after it was published (another version was scribbled over / re-stacked) at %s", i, df)
+		}
+	}
+	for i, rj := range rejects {
+		for j, v := range versions {
+			if v.cfg == rj.cfg {
+				return vrt.Violationf("rejected config %d (handed to OnWatchedError) is the very object installed as version %d", i, j)
+			}
+		}
+		if df := shape.Diff(rj.want.Elem(), reflect.ValueOf(rj.cfg).Elem()); df != "" {
+			return vrt.Violationf("rejected config %d (handed to OnWatchedError) changed after the callback got it, at %s", i, df)
 		}
 	}
 	if !defaultsScribbled {
@@ -583,6 +660,9 @@ func runC02Dials(c C02DialsCase) vrt.Verdict {
 	var all []named
 	for i, v := range versions {
 		all = append(all, named{fmt.Sprintf("version %d", i), shape.Regions(reflect.ValueOf(v.cfg))})
+	}
+	for i, rj := range rejects {
+		all = append(all, named{fmt.Sprintf("rejected config %d (from OnWatchedError)", i), shape.Regions(reflect.ValueOf(rj.cfg))})
 	}
 	nv := len(all)
 	all = append(all, named{"the caller's defaults", shape.Regions(in.defaults)})
@@ -609,6 +689,7 @@ func runC02Dials(c C02DialsCase) vrt.Verdict {
 	if in.shared > 0 {
 		labels = append(labels, "aliased-inputs")
 	}
+	labels = append(labels, fmt.Sprintf("rejected=%d", min(len(rejects), 2)))
 	if scribbled >= 0 && scribbled < len(versions)-1 {
 		labels = append(labels, "scribbled-before-a-restack")
 	}
@@ -621,7 +702,7 @@ func runC02Dials(c C02DialsCase) vrt.Verdict {
 func TestC02Dials(t *testing.T) {
 	vrt.Check(t, vrt.Prop[C02DialsCase]{
 		ID: "C02", Name: "dials",
-		Rule: "a compiled config type with maps, slices, pointers, pointer-to-pointer, nested and pointer structs, embedded struct and skipped fields, stacked by a real Dials from 1..3 fake watching sources; histories of 0..7 blocking re-stacks with aliased inputs; " +
+		Rule: "a compiled config type with maps, slices, pointers, pointer-to-pointer, nested and pointer structs, embedded struct and skipped fields, stacked by a real Dials (the type has a Verify that rejects about a quarter of the stacks; rejected configs are collected from OnWatchedError) from 1..3 fake watching sources; histories of 0..7 blocking re-stacks with aliased inputs; " +
 			"one published version is scribbled over in the middle of the history, and in most histories the caller overwrites its own defaults struct in place at some point after Config; oracles: every view equals the reference model, all versions / defaults / reported values are pairwise address-disjoint, unscribbled versions and inputs never change; " +
 			"non-trivial = at least one re-stack and a leaf set by a layer; distinct = distinct case JSON",
 		Assumptions: []string{"updates are delivered with BlockingReportNewValue so that the history is deterministic without owning the scheduler"},
